@@ -225,15 +225,15 @@ def check_call(fq, args, kwargs=None, contract=None, fn=None):
             except Exception:
                 continue
     del specfuns._TRACE[:]
+    specfuns._TRACE_DEPTH[0] = 0
     installed = []
     if c.get("callee_events") and "self" in env:
         # event view: the callees named by the contract record (name, arguments) and then run as usual
-        depth = [0]
+        depth = specfuns._TRACE_DEPTH
 
         def _rec(name, orig):
             def w(*a, **k):
-                if depth[0] == 0:       # only the calls the function under contract makes itself
-                    specfuns._TRACE.append((name,) + tuple(a) + tuple(k.values()))
+                specfuns._trace_add((name,) + tuple(a) + tuple(k.values()))   # only calls made by the function itself
                 depth[0] += 1
                 try:
                     return orig(*a, **k)
